@@ -153,7 +153,7 @@ def pick_address(cfg, sel, raw):
 
 class RegSub(Sub):
     name = "registers"
-    budget = {"quick": 4000, "thorough": 50000}
+    budget = {"quick": 6000, "thorough": 80000}
     rule = ("1..6 SPI transactions (read/write, assigned / one-bit-neighbour / arbitrary address, random value, CS "
             "abort after any number of clocks incl. mid-bit, extra clocks after completion, SCK jitter) on 8 register "
             "maps (memory incl. narrow, external-signal, constant, read-only signal, SFR, write-only, unassigned; "
